@@ -36,11 +36,12 @@ COMPONENTS = {"real": ["setigen.voltage.backend (record, _make_header, header po
 ASSUMPTIONS = ["generated string values are non-empty printable ASCII without quotes or '=' (blimpy's card splitter cannot "
                "parse '='), numeric values are finite ints/floats; keywords merely starting with END (ENDTIME) are generated but blimpy, which stops at them, is not consulted for those headers",
                "DIRECTIO restricted to 0/1 as in the statement (blimpy pads only for exactly 1)",
-               "a torn file left by an injected fault is not judged; the retried recording is"]
+               "a torn file left by an injected fault is not judged; the retried recording is",
+               "for recordings made onto existing RAW the provenance cards TELESCOP/OBSERVER/SRC_NAME are not judged (re-written by design) and inherited numeric cards may be quoted strings"]
 PROBES = ["header_cards_mod32==0", "directio_pad_0_bytes", "directio_off_unaligned", "multi_file_last_partial",
           "listing_last_is_not_highest", "override_attempted", "default_header_argument", "template_loaded",
           "record_after_aborted_record", "array_source", "reducer_compared", "single_antenna_user_nants",
-          "blimpy_full_walk", "end_prefixed_key"]
+          "blimpy_full_walk", "end_prefixed_key", "recording_onto_existing_raw"]
 
 OWNED = ["NBITS", "NPOL", "OBSNCHAN", "NANTS", "BLOCSIZE", "TBIN", "CHAN_BW", "OBSBW", "OBSFREQ", "SCANLEN"]
 STR_POOL = ["x", "hello", "GBT", "some value", "a.b", "1e5", "B0329+54", "with  two  spaces", "UPPER_lower-09",
@@ -124,6 +125,12 @@ def generate(rng, tier):
                                       {"kind": "open", "at": rng.randint(1, 2)},
                                       {"kind": "interrupt", "at": rng.randint(1, 300)}])
         ops.append(op)
+        if not op.get("fault") and rng.random() < 0.25:
+            # a recording made *onto* the one just written (from_data): its files are recordings too
+            ops.append({"op": "inject_onto", "num_blocks": rng.choice([1, 2, op["num_blocks"], op["num_blocks"] + 2]),
+                        "header": {"kind": "user", "cards": {}} if rng.random() < 0.5 else gen_header(rng, n_pad=rng.choice([0, 1, 5])),
+                        "template": rng.random() < 0.5, "digitize": rng.random() < 0.5, "listings": gen_listings(rng, 3),
+                        "num_subblocks": rng.randint(1, 4), "seed": rng.randrange(1 << 30)})
         if rng.random() < 0.15:
             ops.append({"op": "rebuild", "array": rng.random() < 0.5})
     return {"seams": {"clock_origin": 1.7e9 + rng.randrange(10 ** 6), "clock_jitter_seed": rng.randrange(1 << 20),
@@ -158,7 +165,7 @@ def simplify(sc):
     for c in C02.simplify(sc):
         yield c
     for j, op in enumerate(sc["ops"]):
-        if op["op"] != "record":
+        if op["op"] not in ("record", "inject_onto"):
             continue
         h = op["header"]
         if h["kind"] == "user":
@@ -295,7 +302,13 @@ def judge_recording(ctx, sc, ant, el, be, backend, stem, op, user_cards, used_de
         ctx.check(ps == int(user_cards["PKTSTART"]), "pktidx", "C04/pktidx/user_pktstart_not_honoured", repr(ps))
     elif not used_default:
         ctx.check(ps == p0, "pktidx", "C04/pktidx/first_block_not_at_pktstart", lambda: "PKTSTART %r, first PKTIDX %r" % (ps, p0))
-    ctx.check(isinstance(ps, int) and isinstance(pe, int) and pe - ps == n * spb, "pktidx", "C04/pktidx/pktstop",
+    def _int(v):
+        # cards inherited from an input file are re-written as quoted strings ('0       '): same number
+        try:
+            return int(str(v).strip())
+        except (TypeError, ValueError):
+            return None
+    ctx.check(_int(ps) is not None and _int(pe) is not None and _int(pe) - _int(ps) == n * spb, "pktidx", "C04/pktidx/pktstop",
               lambda: "PKTSTART %r PKTSTOP %r for %d blocks of %d" % (ps, pe, n, spb))
     # headers identical from block to block except PKTIDX
     r0 = {k: v for k, v in blocks[0]["raw"].items() if k != "PKTIDX"}
@@ -493,6 +506,7 @@ def execute(sc, ctx):
     prev_dict = None
     aborted = False
     hist = []
+    last_ok = None
     for j, op in enumerate(sc["ops"]):
         ctx.op(op["op"] + ("+fault" if op.get("fault") else ""))
         if op["op"] == "rebuild":
@@ -507,6 +521,42 @@ def execute(sc, ctx):
             log = W.RequestLog(antenna, ctx)
             backend = W.build_backend(antenna, el, be)
             ctx.event("rebuild")
+            continue
+        if op["op"] == "inject_onto":
+            if last_ok is None:
+                continue
+            in_stem, n_in, in_bpf = last_ok
+            import setigen.voltage as sv
+            a2 = W.build_antenna(dict(ant, seed=op["seed"]))
+            dig, fb, _ = W.build_elements(el)
+            ctx.seams.listing = (op.get("listings") or ["sorted"])[-1]
+            try:
+                b2 = sv.RawVoltageBackend.from_data(in_stem, a2, digitizer=dig, filterbank=fb, start_chan=be["start_chan"],
+                                                    num_subblocks=op["num_subblocks"])
+            except Exception as e:
+                ctx.violation("from_data", "C04/from_data/raises:%s@%s" % (type(e).__name__, W.innermost_setigen_frame(e)), repr(e))
+                return
+            finally:
+                ctx.seams.listing = "sorted"
+            for row_i, row in enumerate(b2.filterbank):
+                for p_i, f in enumerate(row):
+                    f.estimate_channelized_stds(factor=50, seed=op["seed"] + 3 * row_i + p_i)
+            out_stem = ctx.seams.path("inj%d" % j)
+            hdr = W.header_arg(op["header"])
+            # provenance cards are deliberately re-written to "<input value>_SETIGEN" when injecting onto existing data
+            ucards = {k: v for k, v in op["header"].get("cards", {}).items() if k not in ("TELESCOP", "OBSERVER", "SRC_NAME")}
+            rec = dict(op, _log=None)
+            status, exc = W.do_record(ctx, b2, out_stem, rec, header=hdr)
+            if status != "ok":
+                ctx.violation("record", "C04/record_onto/raises:%s@%s" % (type(exc).__name__, W.innermost_setigen_frame(exc)), repr(exc))
+                return
+            ctx.hit("recording_onto_existing_raw")
+            ctx.event("inject_onto", j)
+            n_out = min(op["num_blocks"], n_in)
+            # PKTIDX / PKTSTART come from the input unless the user gave them: judged like a caller-supplied history
+            judge_recording(ctx, sc, ant, el, be, b2, out_stem, dict(op, num_blocks=n_out), ucards, True)
+            if ctx.violations and ctx.stop_on_violation:
+                return
             continue
         stem = ctx.seams.path("r%d" % j)
         hspec = op["header"]
@@ -545,11 +595,12 @@ def execute(sc, ctx):
         # a reused caller dictionary legitimately carries whatever the caller left in it; C12 judges
         # history effects.  Here only what the statement says about one recording is judged.
         reused = bool(op.get("reuse_dict")) and header is prev_dict and j > 0
-        judge_recording(ctx, sc, ant, el, be, backend, stem, op, {} if reused else user_cards, used_default or reused)
+        blocks = judge_recording(ctx, sc, ant, el, be, backend, stem, op, {} if reused else user_cards, used_default or reused)
+        last_ok = (stem, op["num_blocks"], backend.blocks_per_file) if blocks and not ctx.violations else None
         ctx.sim_time += op["num_blocks"] * be["spb"] * el["B"] / ant["fs"]
         if ctx.violations and ctx.stop_on_violation:
             return
-    hkinds = sorted({(o["header"]["kind"], bool(o.get("template")), _dio_class(o["header"])) for o in sc["ops"] if o["op"] == "record"},
+    hkinds = sorted({(o["op"], o["header"]["kind"], bool(o.get("template")), _dio_class(o["header"])) for o in sc["ops"] if o["op"] in ("record", "inject_onto")},
                     key=str)
     ctx.fingerprint = [ant["kind"], ant["n_ant"], ant["pols"], el["bits"], hkinds,
                        sorted({min(o["num_blocks"], 4) for o in sc["ops"] if o["op"] == "record"}), be["blocks_per_file"],
